@@ -248,11 +248,16 @@ PLANS['C20'] = Plan(
 
 PLANS['C08'] = Plan(
     'C08', ['src/multi_pass_workflow_coordinator.py::_MultiPassWorkflowCoordinator.execute', AR + 'check_overlap',
-            'src/alignment/alignment_results.py::AlignmentResults.filterOutSubsequentAlignmentsForSingleQuery'], 'other',
+            'src/alignment/alignment_results.py::AlignmentResults.filterOutSubsequentAlignmentsForSingleQuery',
+            'src/alignment/alignment_results.py::AlignmentResults.resolve'], 'other',
     "Deductive links: _MultiPassWorkflowCoordinator.execute is verified once with a symbolic output mode and a ghost log of the additional-file writes: "
     "separate returns filter(first pass) and writes filter(second pass) to _1; all returns the joined rows and writes filter(first) to _1, filter(second) to _2; "
     "joined returns the joined rows and writes the un-joined rows to _1 - the same callee results in every mode, so the file equalities between modes follow by "
-    "congruence; check_overlap is true only for the same strand and reference with a reference gap <= maxDifference. BOUNDED: the four multi-pass modes of the real program on identical generated inputs (indel-containing and chimeric queries over-weighted, three "
+    "congruence; the join is called once, on filter(first)+filter(second), with the configured maxDifference; check_overlap is true only for the same strand and "
+    "reference with a reference gap <= maxDifference; AlignmentResults.resolve (two nested groupby loops, ghost maps row -> place) creates a joined row only "
+    "for two input rows of the same query, reference and strand whose gap is at most the maxDifference it was given, every un-joined row is an input row, and "
+    "every input row is un-joined or one of the two parts of a joined row (its precondition, at most two rows per reference and query, is discharged at the "
+    "call site from the de-duplication contract). The row-level join (AlignmentResultRow.resolve) is an assumed contract (ids and strand passed through). BOUNDED: the four multi-pass modes of the real program on identical generated inputs (indel-containing and chimeric queries over-weighted, three "
     "maxDifference values); all clauses of the statement are evaluated on the XMAP text with an independent parser.",
     bounded=_lazy('bcheck.c08', 'bounded'), replay=_lazy('bcheck.c08', 'replay'),
     technique='bounded differential run-time contract across output modes (deductive part: see functions_under_contract)',
